@@ -102,7 +102,7 @@ def recipes3d(draw, types=T3D, affine_ok=True, perm_ok=True, reflection=True, nm
     if et.startswith("HEXA"):
         organised = True if len(verts) == 4 else organised
     o = ORDER[et]
-    h = draw(st.integers(8, 14)) / 10.0 * (1.0 if o == 1 else 1.5)
+    h = draw(st.integers(6, 12)) / 10.0 * (1.0 if o == 1 else 1.2)
     ex = [draw(st.integers(-2, 2)) / 4.0, draw(st.integers(-2, 2)) / 4.0, draw(st.integers(2, 6)) / 4.0]
     layers = draw(st.integers(1, 2 if o == 1 else 1))
     A, b = draw(affine(3, reflection)) if affine_ok else (None, None)
